@@ -71,6 +71,25 @@ def run(ctx):
     if cases is None:
         ctx.evidence(dict(evaluations=0, distinct_nontrivial=0, rule="harness did not run", samples=[]))
         return
+    witnesses = [c for c in cases if c.get("kind") in ("witness", "witness-absent")]
+    cases = [c for c in cases if c.get("kind") not in ("witness", "witness-absent")]
+    # known findings: the witness of the refutation theorem (c15_stream_closed_refuted_abandoned), replayed on the real code
+    for c in witnesses:
+        o = c.get("observed") or {}
+        fid = o.get("witness")
+        if c["kind"] == "witness-absent":
+            ctx.notes.append("witness %s could not be produced on this tree: %s" % (fid, o.get("what")))
+            continue
+        ctx.oblige("witness %s replayed on the implementation" % fid, True)
+        if o.get("finding_present"):
+            what = "abandoned sqlite stream is never closed and wedges the store"
+            if ctx.finding_status(fid) == "known":
+                ctx.known(fid, what + " [witness replayed: %s]" % o.get("what"))
+            else:
+                ctx.violation(dict(kind="finding-not-listed-as-known", finding=fid, why=what, observed=o, input=c.get("input")))
+        else:
+            ctx.notes.append("witness %s: the implementation no longer shows the finding (%s)" % (fid, o.get("what")))
+            ctx.say("NOTE: property=C15 witness %s: the implementation no longer shows the finding (%s)" % (fid, o.get("what")))
     crashed = [c for c in cases if not c.get("coq")]
     live = [c for c in cases if c.get("coq")]
     terms = [c["coq"] for c in live]
@@ -143,6 +162,7 @@ def run(ctx):
                       first_steps=c["observed"][:6], last_steps=c["observed"][-3:]) for c in live[3:6]],
         traces_validated_against_impl=obs_steps,
         histories=len(live), steps=steps, worker_crashes=len(crashed),
+        known_finding_witnesses=[c.get("observed") for c in witnesses],
         distribution=dict(
             backend=fw.histogram(c["kind"] for c in live),
             cosmos_paging=fw.histogram(c["dist"].get("paging") for c in live if c["kind"] == "cosmos"),
@@ -179,7 +199,9 @@ def run(ctx):
         "sqlite theorems about result contents assume the State times written are representable (zero time or int64 nanoseconds); "
         "the sqlite specification has the codec's documented loss: instants at or before the Unix epoch read back as the zero time, "
         "a submit time before the epoch is stored as the epoch",
-        "Not covered: the real Cosmos service; SQLite connection-pool exhaustion by consumers that abandon a stream; context cancellation mid-stream",
+        "every generated family drains every stream it opens; a consumer that cancels its context and stops reading is covered only by the "
+        "deterministic witness of known finding S11 (sqlite: never closed, store wedged), run in a process and vault of its own on every run",
+        "Not covered: the real Cosmos service",
     ])
 
 
